@@ -201,6 +201,37 @@ def index_methods(ctx):
         ctx.oracle_fail("collapsed changed its precedence list", {"index": I.to_json(ix)}, cls="C17-input-mutated")
 
 
+def count_reuse(ctx):
+    """an aggregate-function object that is not bound to row data (count without weights) re-used on cubes with
+    different row counts and shapes gives what a fresh object gives"""
+    from catii import ccube, xcube, ffuncs, xfuncs
+    cases = [G.gen_dims(ctx.rng, k=ctx.rng.choice([1, 2]), N=n, max_extent=3) for n in ctx.rng.sample([1, 2, 3, 5, 8, 13], 3)]
+    for kind in ("ccube", "xcube"):
+        def build(case):
+            if kind == "ccube":
+                return ccube([G.make_index(d, c) for d, c in zip(case["dense"], case["commons"])])
+            ish = tuple(int(max([int(v) for v in np.unique(d).tolist()] + [c])) + 1 for d, c in zip(case["dense"], case["commons"]))
+            return xcube([d.astype(np.int64) for d in case["dense"]], interacting_shape=ish)
+        mk = (lambda: ffuncs.ffunc_count()) if kind == "ccube" else (lambda: xfuncs.xfunc_count())
+        shared = mk()
+        ctx.evaluations += 1
+        ctx.hit("count_object_reused_across_cubes:" + kind)
+        for case in cases + cases[::-1]:
+            if not case["dense"]:
+                continue
+            try:
+                got = build(case).calculate([shared])
+                want = build(case).calculate([mk()])
+            except Exception as e:
+                ctx.hit("count_reuse_raised:" + type(e).__name__)
+                continue
+            if not same(got, want):
+                ctx.oracle_fail("%s: a count function object re-used on a cube with another row count gives %s, a fresh object %s" % (
+                    kind, np.asarray(got[0]).reshape(-1).tolist()[:8], np.asarray(want[0]).reshape(-1).tolist()[:8]),
+                    {"cube": kind, "N": case["N"], "Ns": [c["N"] for c in cases]}, cls="C17-hidden-state")
+                return
+
+
 def construction(ctx):
     """iindex.from_array leaves its array, counts and mapping arguments unchanged (all option combinations)"""
     from catii import iindex
@@ -242,6 +273,8 @@ def run(ctx):
     core.load_catii()
     for _ in range(ctx.n(60, 2000)):
         construction(ctx)
+    for _ in range(ctx.n(30, 600)):
+        count_reuse(ctx)
     for _ in range(ctx.n(14, 600)):
         case = A.gen_case(ctx.rng, multi_axis=ctx.rng.random() < 0.3, k=ctx.rng.choice([1, 2, 2]),
                           N=ctx.rng.choice([2, 3, 5, 9]))
